@@ -28,6 +28,10 @@ TRANSPARENT = {
     'core::option::Option::as_mut': 0,
     'core::result::Result::as_ref': 0,
     'core::result::Result::as_mut': 0,
+    # adapters that hand their receiver back untouched after showing it to a callback
+    'core::result::Result::inspect_err': 0,
+    'core::result::Result::inspect': 0,
+    'core::option::Option::inspect': 0,
 }
 
 
@@ -290,6 +294,14 @@ def _sem_org(body, org, transparent, depth, want=None):
 def _follow_agg(body, rv, proj, transparent, depth, want=None):
     """projection into a freshly built aggregate: follow the field operand"""
     proj = tuple(proj)
+    if proj and proj[0] in ('<ok>', '<residual>') and rv.get('variant') in ('Ok', 'Some', 'Err', 'None'):
+        # the payload `?` continues with / the residual it returns, of a value built right here
+        good = rv['variant'] in ('Ok', 'Some')
+        if (proj[0] == '<ok>') != good:
+            return Sem('impossible')
+        if proj[0] == '<ok>' and rv.get('a'):
+            inner = sem(body, rv['a'][0], transparent, depth + 1)
+            return _project(body, inner, proj[1:], transparent, depth)
     if proj and proj[0].startswith('field:') and 'a' in rv:
         idx = int(proj[0].split(':')[1])
         if idx < len(rv['a']):
@@ -317,7 +329,15 @@ def _project(body, inner, rest, transparent=True, depth=0):
     return Sem(inner.kind, inner.cs, inner.local, tuple(inner.proj) + rest, inner.const, inner.extra, inner.checked)
 
 
+IDENTITY = ('core::result::Result::inspect_err', 'core::result::Result::inspect', 'core::option::Option::inspect')
+
+
 def _sem_call(body, cs, proj, transparent, depth):
+    if transparent and cs.declared in IDENTITY and cs.args and proj and depth < 8:
+        # the very value that went in comes out: a projection of the result is that projection of the receiver
+        inner = sem(body, cs.args[0], transparent, depth + 1)
+        if inner.kind in ('call', 'place', 'agg'):
+            return _project(body, inner, proj, transparent, depth)
     if transparent and cs.declared in TRANSPARENT and cs.args and not proj:
         inner = sem(body, cs.args[TRANSPARENT[cs.declared]], transparent, depth + 1)
         if inner.kind in ('call', 'place', 'const', 'agg'):
@@ -583,6 +603,12 @@ def exits(body):
             pl = a['pl']
             l = pl['l']
             ds = [d for d in body.defs().get(l, []) if d[0] == 'call' or not d[2]['pl']['p']]
+            if len(pl['p']) == 2 and pl['p'][0].endswith(':Ready') and pl['p'][1].startswith('field:0') and ds and depth < 4 and \
+                    all(d[0] == 'assign' and d[2].get('inl_ret') and d[2]['rv']['r'] == 'agg' and d[2]['rv'].get('variant') == 'Ready' for d in ds):
+                # the value an awaited helper (inlined by the view) returned: one exit per return of that helper
+                for d in ds:
+                    from_assign(d[1], {'s': 'assign', 'pl': s['pl'], 'rv': {'r': 'use', 'a': [d[2]['rv']['a'][0]]}, 'inl_ret': True, 'line': d[2].get('line')}, depth + 1)
+                return
             if not pl['p'] and len(ds) > 1 and depth < 4 and not (l <= body.argc and l != 0) and l not in body.user_locals_named():
                 for d in ds:
                     if d[0] == 'call':
@@ -607,6 +633,14 @@ def exits(body):
             if sm.kind == 'agg' and isinstance(sm.extra, dict) and 'adt' in sm.extra and not sm.proj and s.get('inl_ret') is None and depth > 0:
                 # (inside an inlined helper) a variable that was bound to a freshly built value, e.g. a parameter
                 out.append({'node': ('b', i), 'kind': 'agg', 'variant': sm.extra['variant'], 'adt': norm(sm.extra['adt']), 'rv': sm.extra, 'stmt': s})
+                return
+            if sm.kind == 'place' and sm.extra == 'multi' and not sm.proj and depth < 4 and sm.local not in body.user_locals_named():
+                # a temporary merged from several definitions (the returns of an awaited helper the view inlined)
+                for d in body.whole_defs(sm.local):
+                    if d[0] == 'call':
+                        out.append({'node': d[2].ret, 'kind': 'call', 'cs': d[2]})
+                    else:
+                        from_assign(d[1], d[2], depth + 1)
                 return
             out.append({'node': ('b', i), 'kind': 'copy', 'sem': sm, 'op': a, 'stmt': s})
         else:
@@ -1469,6 +1503,8 @@ def sem_alts(body, o, depth=0, want=None):
         a = _sem_org(body, org, True, 0, want)
         if a.kind == 'impossible':
             continue
+        if a.kind == 'call' and a.cs.is_(FROM_RESIDUAL) and a.proj and (a.proj[0] == '<ok>' or (a.proj[0].startswith('downcast:') and a.proj[0].split(':', 2)[2] in ('Ok', 'Some'))):
+            continue        # the value `?` returns early with is a failure: its success payload does not exist
         if a.kind == 'place' and a.extra == 'multi' and a.local != s.local:
             out += sem_alts(body, a, depth + 1, want)
         else:
@@ -1639,4 +1675,54 @@ def builder_fields(body, adt):
                 nm = pl['p'][0].split(':', 2)[2]
                 out[nm] = classify(s['rv']['a'][0]) if s['rv']['r'] == 'use' and len(pl['p']) == 1 else 'other'
         return out
+    return None
+
+
+WIDEN = ('core::convert::From::from', 'core::convert::Into::into')
+
+
+def widened(body, o):
+    """the value under a lossless widening (`u32::from(x)`, `x as u32`, `usize::from(x)`): returns the inner Sem, or the
+    Sem of `o` itself if it is not widened"""
+    s = sem(body, o) if not isinstance(o, Sem) else o
+    for _ in range(4):
+        if s.kind == 'call' and s.cs.declared in WIDEN and s.cs.args and not s.proj:
+            s = sem(body, s.cs.args[0])
+            continue
+        if s.kind == 'cast' and s.extra:
+            s = s.extra[0]
+            continue
+        break
+    return s
+
+
+def int_value(body, o, _d=0):
+    """integer value of an operand that is a constant expression written out at run time: a literal / named constant,
+    a widening of one, or a sum / difference of such (`u32::from(u16::MAX) + 1`); None if not evident"""
+    if _d > 6 or o is None:
+        return None
+    v = const_val(body, o)
+    if v is not None:
+        return v
+    s = sem(body, o) if not isinstance(o, Sem) else o
+    if s.proj and not (len(s.proj) == 1 and s.proj[0].startswith('field:0')):
+        return None
+    if s.kind == 'call' and s.cs.declared in WIDEN and s.cs.args:
+        return int_value(body, s.cs.args[0], _d + 1)
+    if s.kind == 'cast' and s.extra:
+        inner = s.extra[0]
+        if inner.kind == 'const' and isinstance(inner.extra, dict):
+            return const_val(body, inner.extra) if 'k' in inner.extra else None
+        return None
+    if s.kind == 'bin':
+        a, b_ = int_value(body, s.extra[2], _d + 1), int_value(body, s.extra[3], _d + 1)
+        if a is None or b_ is None:
+            return None
+        op = s.extra[1]
+        if op.startswith('Add'):
+            return a + b_
+        if op.startswith('Sub'):
+            return a - b_
+        if op.startswith('Mul'):
+            return a * b_
     return None
